@@ -274,13 +274,11 @@ def run_case(spec):
 
 def custom_real_reactor(ctx):
     """Timing-insensitive subset on the real global reactor (differential for the virtual one)."""
-    if ctx["tier"] != "thorough":
-        return []
     from twisted.internet import reactor, defer
     from testtools.twistedsupport._spinner import Spinner
     out = []
     with SignalSandbox():
-        for i, (kind, value) in enumerate([("return", 1), ("raise", None), ("fire", "x"), ("fail", None), ("return", None), ("fire", (1,))] * 5):
+        for i, (kind, value) in enumerate([("return", 1), ("raise", None), ("fire", "x"), ("fail", None), ("return", None), ("fire", (1,))] * (5 if ctx["tier"] == "thorough" else 1)):
             vs = []
             spinner = Spinner(reactor)
             pre = {n: signal.getsignal(getattr(signal, n)) for n in ("SIGINT", "SIGTERM", "SIGCHLD")}
